@@ -58,6 +58,7 @@ func onTriggerDeath(mod *modifier.Instance, target key.TargetID) {
 	mod.Engine().AddModifier(mod.Owner(), info.Modifier{
 		Name:   Buff,
 		Source: mod.Owner(),
+		State:  mod.State(),
 	})
 }
 
